@@ -63,9 +63,11 @@ CLAIMED = {
              "set-iteration order the call succeeds (incl. termination of uid), bounds hold for every node, inputs/outputs/"
              "attributes of original nodes are unchanged, the result is lint-clean and `Refines` the original on every original "
              "node; `gatemap_assoc` is proved over the table extracted from tx.py (the pre-fix `xnor->xnor` entry fails it); "
-             "`gateFn_perm`, `limit_rejects_small_k`. insert_registers (flops replaced by wires) and acyclic_unroll on acyclic "
-             "input are decided by exhaustive simulation on generated circuits only (search, not theorem) — that part of the "
-             "statement is partial.",
+             "`gateFn_perm`, `limit_rejects_small_k`; `insert_registers_sem` (any circuit without blackboxes, any number of "
+             "stages for which the call succeeds: original nodes keep type and output mark, outputs unchanged, the only new "
+             "input is the clock, every instance is the `ff` flop, and with every inserted flop passing d to q the result "
+             "and the original have the same consistent valuations on the original nodes, both directions); "
+             "`acyclic_unroll_of_acyclic` (same inputs/outputs and the same function at every output).",
         note=TRUST + " Hypothesis `hname`: nodes that must be split have names `add` accepts (not digit-leading) — the code raises "
              "ValueError otherwise (witness in the Lean file).",
         ref="§4 C05"),
@@ -100,8 +102,11 @@ CLAIMED = {
              "names with io stripped, wires = parent's + child's + exactly the requested connections, sub-blackboxes carried over), "
              "`add_subcircuit_io`, `add_subcircuit_sem` (spliced nodes satisfy the child's gate equations, connected inputs are "
              "buffers of their nets, untouched parent nodes keep their equations), `add_subcircuit_disjoint`, `pref_injective`, "
-             "`fill_blackbox_struct`, `fill_blackbox_sem` — for all parents, children, names and connection maps. "
-             "strip_blackboxes is modelled and tied by correspondence and a structural search oracle only (no theorem): partial there.",
+             "`fill_blackbox_struct`, `fill_blackbox_sem` — for all parents, children, names and connection maps; "
+             "`strip_blackboxes_spec` (every kept input pin becomes an output buffer `inst_pin` driven as the pin was, every "
+             "kept output pin a primary input `inst_pin`, ignored pins are gone, all other nodes and the wiring between "
+             "surviving nodes unchanged, consistent valuations correspond on all surviving nodes, for every ignore list and "
+             "order), `strip_blackboxes_rejects_overlap` (colliding exposed names are an error, never a merge).",
         note=TRUST + " Proof-forced hypothesis `hfb` (machine-checked counterexample in CG/Proofs/C06Cex.lean): an output "
              "connection must not feed back into a non-input node of the spliced child itself.",
         ref="§4 C06"),
@@ -252,8 +257,11 @@ CLAIMED = {
              "form and read back gives the same name, nodes, types, output marks, edges and registry), `roundtrip_consts` "
              "(with constants: same name/inputs/outputs/registry and every consistent valuation of the result restricts to "
              "one of the original), `write_decls` (both styles: declared inputs/outputs/wires are exactly the circuit's), "
-             "`dispatch_table`. Partial: the behavioural (assign) style round trip and escaped identifiers are covered by "
-             "the correspondence/search only; the theorem is at statement level (rendering + lexing are differential).",
+             "`dispatch_table`, `roundtrip_behavioral` (assign style, blackbox-free circuits without `x` constants whose "
+             "node names do not look like the reader's synthetic gate names: same name/inputs/outputs and the read-back "
+             "circuit refines the original in both directions, any gate mix and arity, cyclic circuits included). "
+             "Partial: assign style with blackboxes and escaped identifiers are covered by the correspondence/search only; "
+             "the theorems are at statement level (rendering + lexing are differential).",
         note=TRUST + " `Writable`: lint-clean, plain identifiers not colliding with tie_0/tie_1/tie_x, registry and pin nodes agree.",
         ref="§4 C03"),
     "C11": dict(
